@@ -178,7 +178,7 @@ def gen_op(rng, r, weights, bad_rate=0.08, max_pool=7, max_rows=9):
     return {'op': 'new', 'n': rng.randint(0, 4)}
 
 
-def gen_history(rng, nsteps, weights=None, seed=0, prefix=None, **kw):
+def gen_history(rng, nsteps, weights=None, seed=0, prefix=None, big_first=False, **kw):
     """Generate and execute; returns the list of ops (with oracle arguments filled in)."""
     weights = dict(weights or DEFAULT_WEIGHTS)
     r = world.Runner()
@@ -189,7 +189,7 @@ def gen_history(rng, nsteps, weights=None, seed=0, prefix=None, **kw):
         ops_list.append(o)
     if not ops_list:
         # bootstrap: a table with two or three typed, filled columns
-        n = rng.randint(2, 6)
+        n = rng.randint(9, 30) if big_first else rng.randint(2, 6)
         boot = [{'op': 'new', 'n': n}]
         for name in rng.sample(NAMES, rng.randint(2, 3)):
             kind = rng.choice(world.KINDS)
